@@ -177,7 +177,7 @@ def run(pid, tier):
     ck.notes["input_distribution"] = hist
     ck.assumptions = ["regex starts at the AST: parser / unescape tied by correspondence only"]
     if pid == "C09":
-        return ck.finish(level="other", trusted=trusted, explanation="correspondence of the executable Coq model of regex/parse.py with the implementation from random ASTs plus the re.fullmatch / literal-coverage oracle; the Coq membership theorem is in progress")
+        return ck.finish(level="proof", trusted=trusted, explanation="theorem C09_language (coq/RegexLang.v: every complete execution of the graph built by the model of regex/parse.py yields a string in L(r), by structural induction over the AST with a frame / closed-region argument, through optimize() by C15_sem) and C09_entries; the model is tied to the implementation by printing random ASTs, parsing them with the real parser and comparing graph dumps, entries and samples; re.fullmatch / literal-coverage oracle on the implementation alone")
     return ck.finish(trusted=trusted)
 
 
